@@ -291,9 +291,22 @@ pub fn c10_from_raw(base: ProblemCase, raw_ops: Vec<(u16, Vec<u16>, u16)>, pl: u
 
                 let mut ops: Vec<Op> = vec![];
                 let mut earlier: Vec<Vec<f64>> = vec![base.alpha.clone()];
-                let extremes = [0.0, -1.0, 1e-300, 1e30, -1e-3, 1e6, 3.0e-2, -250.0];
+                let extremes = [0.0, -1.0, 1e-300, 1e30, -1e-3, 1e6, 3.0e-2, -250.0, -0.0];
                 for (sel, us, aux) in raw_ops {
                     let op = match pick(sel, 16) {
+                        3 if aux % 2 == 0 => {
+                            // a pair of updates that are numerically equal but not bitwise: one
+                            // coordinate is +0.0 in the first and -0.0 in the second (or the other way
+                            // round) — exp(-x/+0) and exp(-x/-0) are as different as can be, while
+                            // `==` on the parameter vectors cannot tell them apart
+                            let mut a = alpha_tame(&base.spec, &us, 0);
+                            let k = pick(aux, a.len());
+                            a[k] = if aux % 4 == 0 { 0.0 } else { -0.0 };
+                            ops.push(Op::Set(a.clone()));
+                            a[k] = -a[k];
+                            earlier.push(a.clone());
+                            Op::Set(a)
+                        }
                         0..=3 => {
                             let a = alpha_tame(&base.spec, &us, 0);
                             earlier.push(a.clone());
